@@ -63,7 +63,20 @@ def run_check(pid, tier):
 
     # 3. build the proofs this property depends on
     target = 'Properties/%s.vo' % pid
+    unit_targets = []
+    for uname in getattr(prop, 'UNITS', []):
+        try:
+            for r in load_unit(uname).requires:
+                t = r.replace('ME.', '').replace('.', '/') + '.vo'
+                if t not in unit_targets:
+                    unit_targets.append(t)
+        except Exception:
+            notes.append('cannot load unit %s: %s' % (uname, traceback.format_exc()[-300:]))
     ok, log = core.make([target])
+    if unit_targets:
+        uok, ulog = core.make(['-k'] + unit_targets)
+        if not uok:
+            notes.append('some model files needed by the correspondence units do not build: %s' % (core.first_coq_error(ulog),))
     checker_cmds.append('make -C coq -j16 %s   (coq_makefile, full .vo build)' % target)
     open(os.path.join(core.LOGS, '%s.make.log' % pid), 'w').write(log)
     thms = []
